@@ -30,7 +30,10 @@ RULE = ("call chains of 1..7 links over {plain, generator, coroutine, stackscope
         "anchors {None, every frame of the true stack, 3 frames of each other thread, suspended generator frame, "
         "2 frames of a suspended sibling greenlet} and limits {None,-1,0,1..n+1}; extract_until additionally with "
         "every frame as limit. one Coq case = one live stack + a batch of queries; non-trivial = some query of the "
-        "batch yields >= 2 frames or an error. py_slice/del_slice: exhaustive lists of length 0..6 (quick 0..4), "
+        "batch yields >= 2 frames or an error. histories (kind hist): a worker greenlet's loop frame / a generator frame "
+        "inside a child greenlet extracts in 2..4 rounds from the SAME frame while the parent re-enters it from call depths "
+        "0..4 / different callers advance it (driver in the main or in a nested greenlet), each round compared with the "
+        "model and the oracle on the stack as it is then. py_slice/del_slice: exhaustive lists of length 0..6 (quick 0..4), "
         "bounds in {None,-8..8}, steps +-1..3")
 CONFIG = dict(
     coq=["C04"], level="proof",
